@@ -539,8 +539,13 @@ def translate_eer(repo):
     if [a.arg for a in fn.args.args] != ["self"]:
         raise Reject("eer signature")
     calls = dict(THR_CALLS)
+    def c_float64(tr_, e):
+        # np.float64(x): conversion of a score to double precision; the identity on the exact values of the model
+        if len(e.args) != 1 or e.keywords:
+            raise Reject("np.float64 takes one positional argument here")
+        return tr_.expr(e.args[0])
     calls.update({"self.threshold_at_fpr": c_tfpr, "self.threshold_at_fnr": c_tfnr, "np.sign": c_sign, "min": c_min2,
-                  "np.isclose": c_isclose, "f": c_local_f})
+                  "np.isclose": c_isclose, "f": c_local_f, "np.float64": c_float64})
     props = {"hard_pos_ratio": ("(hard_pos_ratio s)", "Q"), "hard_neg_ratio": ("(hard_neg_ratio s)", "Q")}
     tr = EerTr(env={}, self_fields=SELF_FIELDS, self_props=props, calls=calls, ret_wrap=_ret_pair)
     body = tr.block(strip_doc(fn.body))
